@@ -56,6 +56,9 @@ func (ft Features) key(r *rand.Rand, group bool) string {
 		return t + "@" + g
 	}
 	if pick(r, ft.PNamed) {
+		if pick(r, 0.3) {
+			return t + "/q" // a name with a double quote in it (univ.RealName)
+		}
 		return t + "/n"
 	}
 	return t
@@ -172,6 +175,12 @@ func Random(r *rand.Rand, ft Features) *cat.Catalog {
 				if pick(r, ft.PFlat) {
 					res.M = "flat"
 					res.N = r.Intn(3)
+					if k[0] == 'T' && pick(r, 0.3) {
+						// a flattened slice of interfaces ([]I0): its members are values of a
+						// concrete type, or nil interfaces (Enc.NilRes)
+						k = "I0" + k[2:]
+						res.Ks = []string{k}
+					}
 				}
 				groupKeys = append(groupKeys, k)
 			} else {
